@@ -22,6 +22,7 @@ import (
 	"math/big"
 	"math/rand"
 	"net"
+	"os"
 	"sort"
 	"strconv"
 	"strings"
@@ -672,7 +673,7 @@ func (r *tunnelRun) one(cfgNo int, cfg tnCfg, conns int) {
 	}
 }
 
-var tnNextPort int32 = 10000 + int32(time.Now().UnixNano()/1000%3000)
+var tnNextPort int32 = 10000 + int32((int64(os.Getpid())*977+time.Now().UnixNano()/1000)%17000) // checks running side by side start in different places
 
 // tnPort hands out listening ports below the ephemeral range (outgoing connections cannot take them), each once per process
 func tnPort() int {
